@@ -387,7 +387,7 @@ pub fn run(ctx: &mut Ctx, mode: Mode) {
     let _ = id;
     ctx.rule = rule.into();
     ctx.assume("methods are generated in canonical upper case; dot-segments and invalid UTF-8 belong to C03");
-    let tables = ctx.tier.pick(4000, 60000);
+    let tables = ctx.tier.pick(15000, 150000);
     let probes = ctx.tier.pick(12, 24);
     ctx.phase("inproc", tables, table_case_strategy(4, probes, mode == Mode::C04), |c, st| check_inproc(mode, c, st));
     ctx.require_frac("inproc", "hit", "probes", 0.2);
@@ -399,7 +399,7 @@ pub fn run(ctx: &mut Ctx, mode: Mode) {
         ctx.require_frac("inproc", "expect405", "probes", 0.03);
         ctx.require_frac("inproc", "expect405_version_filter_matters", "probes", 0.003);
     }
-    let tables = ctx.tier.pick(300, 4000);
+    let tables = ctx.tier.pick(1200, 12000);
     let rt = tokio::runtime::Builder::new_multi_thread().worker_threads(2).enable_all().build().unwrap();
     ctx.phase("live", tables, table_case_strategy(3, probes, mode == Mode::C04), |c, st| check_live(mode, &rt, c, st));
 }
